@@ -18,14 +18,22 @@ theorem parseTbe_some {p : Term} {noc : Cert} {icac : Option Cert} {rest : Term}
     subst h1; subst h2; subst h3; rfl
   · cases h
 
-/-- the transcript encoding of messages is injective: different messages hash differently -/
+theorem resumeTerm_inj {a b : Option (Term × Term)} (h : resumeTerm a = resumeTerm b) : a = b := by
+  cases a with
+  | none => cases b with
+    | none => rfl
+    | some q => obtain ⟨x, y⟩ := q; simp [resumeTerm] at h
+  | some p =>
+    obtain ⟨x, y⟩ := p
+    cases b with
+    | none => simp [resumeTerm] at h
+    | some q => obtain ⟨u, v⟩ := q; simp [resumeTerm] at h; simp [h]
+
 theorem toTerm_inj {a b : Msg} (h : a.toTerm = b.toTerm) : a = b := by
-  cases a <;> cases b <;> try (simp [Msg.toTerm] at h)
+  cases a <;> cases b <;> simp [Msg.toTerm] at h ⊢
+  · exact ⟨h.1, h.2.1, h.2.2.1, h.2.2.2.1, resumeTerm_inj h.2.2.2.2⟩
   all_goals first
-    | rfl
-    | skip
-  all_goals
-    rename_i r1 s1 d1 e1 o1 r2 s2 d2 e2 o2 <;> skip
-  all_goals sorry
+    | exact h
+    | (rename_i x y; cases x <;> cases y <;> simp at h ⊢)
 
 end Case
